@@ -18,6 +18,9 @@ type posStep struct {
 	NewGame bool   `json:"ucinewgame,omitempty"` // send ucinewgame instead of a position
 	Cmd     posCmd `json:"position"`
 	Rel     string `json:"relation,omitempty"` // how it relates to the previous position command (label)
+	// Aside: a command that is neither position nor ucinewgame nor go (setoption, isready, debug,
+	// an unknown word) sent at this step; the most recent position command stays the same.
+	Aside string `json:"aside,omitempty"`
 }
 
 type posCase struct {
@@ -78,11 +81,13 @@ var checkC10 = def("C10/position", func(c posCase) error {
 	defer s.quit()
 	var last *posCmd
 	var labels []string
-	shortcut := 0
+	shortcut, asides := 0, 0
 	prevText := ""
 	for i, st := range c.Steps {
 		text := "ucinewgame"
-		if !st.NewGame {
+		if st.Aside != "" {
+			text = st.Aside
+		} else if !st.NewGame {
 			text = st.Cmd.text()
 		}
 		if !s.send(text) {
@@ -91,7 +96,12 @@ var checkC10 = def("C10/position", func(c posCase) error {
 		if why := s.barrier(); why != "" {
 			return fmt.Errorf("step %d: after the valid command %q: %s", i, text, why)
 		}
-		if st.NewGame {
+		if st.Aside != "" {
+			labels = append(labels, "aside:"+strings.Join(strings.Fields(st.Aside+" - -")[:3], " "))
+			if last != nil {
+				asides++
+			}
+		} else if st.NewGame {
 			prevText = ""
 			labels = append(labels, "ucinewgame")
 		} else {
@@ -115,7 +125,7 @@ var checkC10 = def("C10/position", func(c posCase) error {
 			}
 		}
 	}
-	stats.Case("C10/position", stats.FP(fmt.Sprint(c.Steps), fmt.Sprint(c.Probe)), len(c.Steps) >= 2 && shortcut > 0, dedup(labels)...)
+	stats.Case("C10/position", stats.FP(fmt.Sprint(c.Steps), fmt.Sprint(c.Probe)), len(c.Steps) >= 2 && (shortcut > 0 || asides > 0), dedup(labels)...)
 	stats.Note("C10/position", "commands", int64(len(c.Steps)))
 	return nil
 })
@@ -156,8 +166,17 @@ func genPosCase(t *rapid.T) posCase {
 	c.Steps = append(c.Steps, posStep{Cmd: posCmd{FEN: fenText, Moves: append([]string(nil), moves...)}})
 	n := rapid.IntRange(1, 7).Draw(t, "nsteps")
 	for i := 0; i < n; i++ {
-		rel := rapid.SampledFrom([]string{"verbatim", "extend", "extend", "extend", "truncate", "other-line", "fresh", "fen-textual-extension", "fen-of-current", "fen-of-current", "case-twin", "ucinewgame"}).Draw(t, "rel")
+		rel := rapid.SampledFrom([]string{"verbatim", "extend", "extend", "extend", "truncate", "other-line", "fresh", "fen-textual-extension", "fen-of-current", "fen-of-current", "case-twin", "ucinewgame", "aside"}).Draw(t, "rel")
 		switch rel {
+		case "aside":
+			c.Steps = append(c.Steps, posStep{Aside: rapid.SampledFrom([]string{
+				"debug on", "debug off", "xyzzy", "register later",
+				"setoption name Hash value 1", "setoption name Hash value 0", "setoption name Hash value 2",
+				"setoption name Noise value 0", "setoption name Noise value 10", "setoption name Depth value 2", "setoption name Depth value 0",
+				"setoption name OwnBook value true", "setoption name OwnBook value false", "setoption name Ponder value true",
+				"setoption name Clear Hash", "setoption name UCI_AnalyseMode value true", "setoption", "stop",
+			}).Draw(t, "aside")})
+			continue
 		case "ucinewgame":
 			c.Steps = append(c.Steps, posStep{NewGame: true})
 			continue
